@@ -19,7 +19,7 @@ CHECKS = {
    technique="TLC model checking of Heap.tla + step-by-step replay of TLC walks on real VMs with graph-isomorphism and heap-ownership comparison"),
  "C05": dict(
    level="model_checking",
-   text="Heap.tla is model-checked for NoDangling and CollectExact (a collection frees exactly the unreachable objects of the swept heaps); TLC walks with collections placed by the model at every position are executed on real VMs, additionally under collect-at-every-allocation, with freed blocks quarantined and poisoned: every object the model says is reachable must be intact and every object it says was reclaimed must be flagged freed after the collection.",
+   text="Heap.tla is model-checked for NoDangling and CollectExact (a collection frees exactly the unreachable objects of the swept heaps); TLC walks with collections placed by the model at every position are executed on real VMs, additionally under collect-at-every-allocation, with freed blocks quarantined and poisoned: every object the model says is reachable must be intact and every object it says was reclaimed must be flagged freed after the collection. Collect is one atomic step for the whole subtree in the model (the spec mutant `sweepgap` - a descendant allocates between being marked and being swept - is rejected by NoDangling); its conformance side is the parent-collects scenario: the root collects in a loop while 2-4 children compute on their own OS threads, results compared with the closed form.",
    design="5 (C05), 4.2",
    note="trusts the GC header hooks (freed flag, quarantine) and that quarantine does not change reachability; program-level GC-stress replay of the Lang corpus is part of the C01 family of checks",
    technique="TLC model checking of Heap.tla + replay of TLC walks under forced GC schedules with freed-block poisoning"),
@@ -49,7 +49,7 @@ CHECKS = {
    technique="TLC generator with type-confusing mutation (Lang.tla PRetype) + replay under setting combinations"),
  "C16": dict(
    level="model_checking",
-   text="Session.tla is a determinism monitor: the observation of a source (value rendering, type text, diagnostics text, effect log) is bound at its first evaluation and must be equal at every later one. TLC generates histories (which source on which of 3 VMs in which order); the harness runs them with fresh VMs per history in separate worker processes, plus two fresh-process observations of every source; all events are validated against Trace_Session.tla by TLC (postcondition on the consumed trace length).",
+   text="Session.tla is a determinism monitor: the observation of a source (value rendering, type text, diagnostics text, effect log) is bound at its first evaluation and must be equal at every later one. TLC generates histories (which source on which of 3 VMs in which order); the harness runs them with fresh VMs per history in separate worker processes, plus two fresh-process observations of every source; all events are validated against Trace_Session.tla by TLC (postcondition on the consumed trace length). Scheduling dimension: Imports.tla (the import tasks of a module finish in any order; the reported errors must be in source order; the `arrival` variant is rejected) - every completion order of 3 imports x every subset of broken modules x 2 module shapes is replayed on a VM whose spawner is a deterministic executor following that order, and the diagnostics must be identical.",
    design="5 (C16), 4.10",
    note="observations are compared through a 30-bit hash inside the trace (collisions would hide a difference with probability 2^-30 per pair) and in full for the explanation; sources: Lang.tla programs, ill-typed mutants, std-using and erroneous hand-written programs",
    technique="TLC-generated histories + trace validation of recorded sessions against Session.tla"),
@@ -61,7 +61,7 @@ CHECKS = {
    technique="TLC enumeration of the primitive contract (Prims.tla) + trace validation of sessions (Session.tla) in crash-isolating workers"),
  "C07": dict(
    level="model_checking",
-   text="MemLimit.tla (allocation accounting contract; the transcription of the coded guard predicts a bounded overshoot) and VMFrames.tla (frame shape machine: stack limit tested at every entry, DepthBound - the compile-time max_stack_size bounds a frame's growth -, TailCallNoGrowth, OffsetsMonotone) are model-checked; TailCtx.tla enumerates all compositions of tail-position contexts (if/match/let/rec-let bodies, && and || right operands) x loop shapes (direct, mutual, through a closure, over-application). Binding: every loop runs 60 iterations with frame events validated by TLC against Trace_VMFrames.tla and 10^3 / 10^5 iterations under a 4096-slot limit (peak stack must not grow); non-tail recursion x stack limits (value or StackOverflow, never a crash, peak <= limit); allocation templates x memory limits with gc events validated against Trace_MemLimit.tla (contract and as-coded variants); an interrupt from another OS thread must stop a spinning program.",
+   text="MemLimit.tla (allocation accounting contract; an as-coded variant of the guard described the overshoot by less than one header which was repaired in /repo, see known_findings.json fixed) and VMFrames.tla (frame shape machine: stack limit tested at every entry, DepthBound - the compile-time max_stack_size bounds a frame's growth -, TailCallNoGrowth, OffsetsMonotone) are model-checked; TailCtx.tla enumerates all compositions of tail-position contexts (if/match/let/rec-let bodies, && and || right operands) x loop shapes (direct, mutual, through a closure, over-application). Binding: every loop runs 60 iterations with frame events validated by TLC against Trace_VMFrames.tla and 10^3 / 10^5 iterations under a 4096-slot limit (peak stack must not grow); non-tail recursion x stack limits (value or StackOverflow, never a crash, peak <= limit); allocation templates x memory limits with gc events validated against Trace_MemLimit.tla (contract and as-coded variants); an interrupt from another OS thread must stop a spinning program.",
    design="5 (C07), 4.3, 4.7",
    note="events come from the hooks in stack.rs / thread.rs / gc.rs; the transient placement of a tail call's arguments above the popped frame is exempt from DepthBound; native-stack exhaustion is observed as a signal of the isolated worker",
    technique="TLC model checking (MemLimit, VMFrames, TailCtx) + trace validation of recorded frame / gc events + limit sweeps"),
@@ -91,13 +91,13 @@ CHECKS = {
    technique="TLC check of printer/recogniser round trip (TypeSyntax.tla) + replay of every enumerated type through the real printer and parser at several widths"),
  "C14": dict(
    level="model_checking",
-   text="Locks.tla gives the acquire / release sequence of each public operation (run, collect with mark_child_roots, push of a rooted value, new_thread, import) and TLC reports cyclic waits: the sibling-thread scenario is free of them, the parent-collection vs push-onto-child scenario has one (reproduced on the VM). ModulesPar.tla: racing requesters evaluate every module body at most once and everyone is served (TLC incl. liveness). Binding: stress rounds with 2-16 OS threads each compiling and running programs on its own child thread of one VM (overlapping imports of tick-reporting modules, allocation, channels, maps, lazies; gc forced at every 1st / 3rd allocation check in part of the rounds, freed blocks poisoned): results must equal the solo results, every module body runs at most once, nothing freed is reachable afterwards; hangs / crashes count when they reproduce.",
+   text="Locks.tla gives the acquire / release sequence of each public operation (run, collect with mark_child_roots, push of a rooted value, new_thread, import) and TLC reports cyclic waits: the sibling-thread scenario is free of them, the parent-collection vs push-onto-child scenario has one (reproduced on the VM). ModulesPar.tla: racing requesters evaluate every module body at most once and everyone is served (TLC incl. liveness). Binding: stress rounds with 2-16 OS threads each compiling and running programs on its own child thread of one VM (overlapping imports of tick-reporting modules, allocation, channels, maps, lazies; gc forced at every 1st / 3rd allocation check in part of the rounds, freed blocks poisoned): results must equal the solo results, every module body runs at most once, nothing freed is reachable afterwards; parent-collects rounds (the root collects in a loop while 2-4 children build and sum lists on their own OS threads, calling a primitive per iteration) must give the closed-form result; hangs / crashes count when they reproduce.",
    design="5 (C14), 4.6",
    note="OS-thread interleavings are sampled, not enumerated (the sync-point hooks H9 of the design were not built); verdicts about hangs and crashes require reproduction with the same programs",
    technique="TLC model checking of Locks.tla and ModulesPar.tla + randomized parallel stress compared with solo runs (spec-predicted deadlock scenario replayed under a watchdog)"),
  "C09": dict(
    level="exploration",
-   text="Thin use of the family: Mutate.tla enumerates every edit script (delete / duplicate / swap / truncate / re-indent at 12 abstract positions, single and double edits) which the harness applies to valid base programs; nesting templates (depth 10-2000) and seeded token soups / random bytes complete the inputs. Each input is typechecked in an isolated worker (panic, abort, native stack overflow at nesting <= 500, hang = violation) and the events of every run (begin, error with span, end) are validated by TLC against the acceptor Frontend.tla (spans inside the input on character boundaries, errors renderable, a failing run has diagnostics).",
+   text="Thin use of the family: Mutate.tla enumerates every edit script (delete / duplicate / swap / truncate / re-indent / make-implicit-argument / make-macro-name at 12 abstract positions, single and double edits) which the harness applies to valid base programs; nesting templates (depth 10-2000) and seeded token soups / random bytes complete the inputs. Each input is typechecked in an isolated worker (panic, abort, native stack overflow at nesting <= 500, hang = violation) and the events of every run (begin, error with span, end) are validated by TLC against the acceptor Frontend.tla (spans inside the input on character boundaries, errors renderable, a failing run has diagnostics).",
    design="5 (C09), 4.10",
    note="the raw-byte inputs come from a seeded generator, not from TLC; findings are keyed by panic location",
    technique="TLC-enumerated mutation scripts + seeded random inputs, crash-isolating workers, trace validation against the Frontend.tla acceptor"),
